@@ -1887,6 +1887,26 @@ def oracle_c10(tables, seed, tier, deep):
                                  "input": open(inp).read()[:300], "cli_flags": ["redact", "in.log", "-o", "out", "--encrypt", "--encryptionKeyFile", "<" + how + ">"]})
             if open(reg, "rb").read() != base64.b64encode(HARNESS_KEY):
                 viol.append({"site": "key-file-changed", "detail": "the key file was modified by a run that used it", "input": ""})
+        # Atlas mode with --encrypt: the logs of several hosts are processed one after the other in ONE run; hosts holding the same
+        # entries must come out with the same ciphertexts (one key for the whole run), equal to those of a plain-file run
+        import fakeatlas
+        plain = open(inp, "rb").read()
+        kf = os.path.join(work, "atlas.key")
+        open(kf, "wb").write(base64.b64encode(HARNESS_KEY))
+        hs = ["e0.example.net:27017", "e1.example.net:27017", "e2.example.net:27017"]
+        sc = fakeatlas.Scenario(hs, [fakeatlas.gz(plain) for _ in hs])
+        r = run_atlas(sc, work, flags=["--encrypt", "--encryptionKeyFile", kf])
+        extra += 1
+        base_ = os.path.basename(r["out"])
+        got = [r["outputs"].get("%s.%d" % (base_, i)) for i in range(len(hs))]
+        dist["atlas-encrypt-hosts"] += len(hs)
+        if r["rc"] != 0 or any(g is None for g in got):
+            viol.append({"site": "atlas-encrypt:failed", "detail": "Atlas job with --encrypt over %d hosts: exit %d, outputs %r: %s" % (len(hs), r["rc"], sorted(r["outputs"]), r["stderr"][-200:]), "input": plain.decode("utf-8", "replace")[:300], "cli_flags": r["args"][1:]})
+        else:
+            for i, g in enumerate(got):
+                if g != got[0] or (ref[0] == 0 and ref[1] and g != ref[1]):
+                    viol.append({"site": "nondeterministic:atlas-host-%s" % ("first" if i == 0 else "later"), "detail": "Atlas job with --encrypt: %d hosts hold the same log, but the output of host %d differs from %s (same key file, same plaintexts: same ciphertexts)" % (len(hs), i, "that of host 0" if g != got[0] else "a plain-file run with the same key"),
+                                 "input": plain.decode("utf-8", "replace")[:300], "cli_flags": r["args"][1:]})
     finally:
         shutil.rmtree(work, ignore_errors=True)
     return result(viol, 3 * len(trip) + len(ops) + extra, dist["ciphertext"], "separate CLI runs with one key reaching the tool as a regular file / symbolic link / through a symlinked directory / FIFO: same ciphertexts or a failure; grammar lines with repeated literals under placeholder mode, encrypt mode (real AES-SIV key) and encrypt mode with unusable 10-byte key material; leaf-wise: equal, or placeholder in one and a ciphertext decrypting to the input leaf in the other; equal plaintexts <-> equal ciphertexts across lines and processes; distinct_nontrivial = ciphertext leaves decrypted and compared",
